@@ -4,6 +4,8 @@ use crate::run::{run, RunOpts, RunResult};
 use crate::scenario::*;
 
 pub mod c01;
+pub mod c02;
+pub mod c03;
 pub mod c04;
 pub mod c05;
 pub mod c06;
@@ -47,6 +49,8 @@ pub struct Eval {
     pub nontrivial: bool,
     pub counters: Vec<(String, u64)>,
     pub trace_hash: u64,
+    /// C03: the concrete faulted scenario of the sweep that violated (becomes the replay file)
+    pub sweep_hit: Option<Scenario>,
 }
 
 impl Eval {
@@ -188,6 +192,39 @@ pub fn evaluate(prop: &str, sc: &Scenario) -> Eval {
             ev.violations = c11::check(sc, &res, Some(&twin));
             ev.nontrivial = sc.tags.iter().any(|t| t.starts_with("expect:"));
             ev.signature = format!("{}{}", base_signature(sc), isig);
+        }
+        "C02" => {
+            let res = run(sc, &RunOpts::default());
+            let isig = account(&mut ev, sc, &res);
+            ev.violations = c02::check(sc, &res);
+            ev.nontrivial = sc.tags.iter().any(|t| t.starts_with("h:"));
+            ev.signature = format!("{}{}", base_signature(sc), isig);
+        }
+        "C03" => {
+            let res = run(sc, &RunOpts::default());
+            let mut isig = account(&mut ev, sc, &res);
+            ev.violations = c03::check_run(sc, &res, "base run");
+            // fault sweep over the calls of the recorded run
+            let thorough = std::env::var("VERIF_TIER").map(|t| t == "thorough").unwrap_or(false);
+            let limit = if thorough { 400 } else { 48 };
+            let sweeps = if sc.profile.starts_with("c03-concrete") { Vec::new() } else { crate::profiles::c03_sweep(sc, &res, limit) };
+            ev.count("sweep_runs", sweeps.len() as u64);
+            for (label, s2) in sweeps {
+                let r2 = run(&s2, &RunOpts::default());
+                let _ = account(&mut ev, &s2, &r2);
+                let vs = c03::check_run(&s2, &r2, &label);
+                if !vs.is_empty() && ev.violations.len() < 6 {
+                    for mut x in vs {
+                        x.detail = format!("[{}] {}", label, x.detail);
+                        ev.violations.push(x);
+                    }
+                    ev.sweep_hit = Some(s2);
+                }
+                isig.push_str(&label.split(' ').next().unwrap_or("").to_string());
+                isig.push(',');
+            }
+            ev.nontrivial = !res.kernel.gt.events_fired.is_empty() || !res.kernel.gt.faults_fired.is_empty() || ev.runs > 1;
+            ev.signature = format!("{}{}", base_signature(sc), crate::rng::fnv64(isig.as_bytes()));
         }
         "C14" => {
             let res = run(sc, &RunOpts::default());
